@@ -4,6 +4,10 @@ CONSTANTS
   Repo = "json"
   Savers = {"s1", "s2", "s3"}
   InitDocs <- InitDocs3
+  Keys = {"k1"}
+  Exps = {"zero"}
+  MaxNow = 1
+  MaxBatch = 0
   MaxObtain = 2
   MaxSaves = 2
   MaxVer = 6
